@@ -108,7 +108,9 @@ def annotate_citations(
                 start, end, span_text = maybe_balance_style_tags(
                     start, end, plain_text
                 )
-                if not is_balanced_html(span_text):
+                # the extended span must not reach back into text that was
+                # already emitted for a previous annotation
+                if start < last_end or not is_balanced_html(span_text):
                     logger.warning(
                         "Citation was not annotated due to unbalanced tags %s",
                         original_span_text,
